@@ -151,8 +151,13 @@ Definition hstep (c : hcfg) (s : hstate) (o : hop) : hreply * hstate :=
         match host with
         | None => (HHost, mkH (ino s) (handles s) ck (next_handle s) (mount_live s) (fds s) (leaked s) (oflags s))
         | Some _ =>
-            let (l, i1) := readdir_entries (hc c) plus (ino s) ents in
-            (HR (REnts l), mkH i1 (handles s) ck (next_handle s) (mount_live s) (fds_after_ino s i1) (leaked s) (oflags s))
+            if valid (ino s) i then
+              let (l, i1) := readdir_entries (hc c) plus (ino s) ents in
+              (HR (REnts l), mkH i1 (handles s) ck (next_handle s) (mount_live s) (fds_after_ino s i1) (leaked s) (oflags s))
+            else
+              (* the handle outlived its inode (the client forgot it): do_lookup(inode, name) of the first
+                 real entry fails with EBADF (inode_map.get(parent)), an empty listing still succeeds *)
+              (HHost, mkH (ino s) (handles s) ck (next_handle s) (mount_live s) (fds s) (leaked s) (oflags s))
         end
       else (HErr EBADF, s)
   | HUse kind i h =>
@@ -210,6 +215,7 @@ Definition hreply_matches (m : hreply) (o : ohreply) : bool :=
   | HErr e, OHErrno e' => e =? e'
   | HHost, OHErrno _ => true
   | HHost, OHUnit => true
+  | HHost, OHEnts [] => true
   | HUnit, OHUnit => true
   | _, _ => false
   end.
